@@ -172,7 +172,8 @@ IssueInvoiceAct(sl, amt) ==
 \* the payer may attach a TTL (ttlb blocks from now) to the invoice it pays
 ProcessInvoiceAct(sl, ttlb) ==
   /\ \E m \in net : m.sl = sl /\ m.stage = "I1"
-  /\ Nrep(st, sl) < 2          \* (bound: at most two replies per invoice)
+  /\ Nrep(st, sl) < 1          \* (an invoice is paid once: a second process_invoice_tx of the same slate merges the
+                               \*  stored context with itself - duplicate inputs, lock then refused - not modelled)
   /\ LET m == CHOOSE m \in net : m.sl = sl /\ m.stage = "I1"
          acct == st.w["w1"].active
          r1  == Refresh1(st, "w1", acct, FALSE)
